@@ -131,6 +131,68 @@ func runC16(c *Ctx) {
 		}
 	}
 
+	// ---------------- (a'') curves whose group order is longer than the field (secp160r1: 161-bit order, 160-bit field;
+	// a synthetic 521-bit-field curve record with a 528-bit order) - the width is that of the order ----------------
+	{
+		secp160r1 := &elliptic.CurveParams{Name: "secp160r1", BitSize: 160}
+		secp160r1.P, _ = new(big.Int).SetString("ffffffffffffffffffffffffffffffff7fffffff", 16)
+		secp160r1.N, _ = new(big.Int).SetString("0100000000000000000001f4c8f927aed3ca752257", 16)
+		secp160r1.B, _ = new(big.Int).SetString("1c97befc54bd7a8b65acf89f81d4d4adc565fa45", 16)
+		secp160r1.Gx, _ = new(big.Int).SetString("4a96b5688ef573284664698968c38bb913cbfc82", 16)
+		secp160r1.Gy, _ = new(big.Int).SetString("23a628553168947d59dcc912042351377ac5fb32", 16)
+		secp224k1 := &elliptic.CurveParams{Name: "secp224k1-record", BitSize: 224} // only N and BitSize matter to the stub path
+		secp224k1.P, _ = new(big.Int).SetString("fffffffffffffffffffffffffffffffffffffffffffffffeffffe56d", 16)
+		secp224k1.N, _ = new(big.Int).SetString("010000000000000000000000000001dce8d2ec6184caf0a971769fb1f7", 16)
+		secp224k1.B = big.NewInt(5)
+		secp224k1.Gx, _ = new(big.Int).SetString("a1455b334df099df30fc28a169a467e9e47075a90f7e650eb6b7a45c", 16)
+		secp224k1.Gy, _ = new(big.Int).SetString("7e089fed7fba344282cafbd6f7e319f7c0b0bd59e2ca4bdb556d61a5", 16)
+		for _, cv := range []*elliptic.CurveParams{secp160r1, secp224k1} {
+			n := (cv.N.BitLen() + 7) / 8
+			pub := &ecdsa.PublicKey{Curve: cv, X: cv.Gx, Y: cv.Gy}
+			for _, alg := range c16algs {
+				for i := 0; i < c.N(40, 2000); i++ {
+					rr := new(big.Int).Mod(new(big.Int).SetBytes(r.Bytes(n+1)), cv.N)
+					ss := new(big.Int).Mod(new(big.Int).SetBytes(r.Bytes(n+1)), cv.N)
+					switch i % 5 {
+					case 1:
+						rr.SetBit(rr, cv.N.BitLen()-1, 1) // top bit of the order's width set: needs the extra octet
+						rr.Mod(rr, cv.N)
+					case 2:
+						ss = new(big.Int).Sub(cv.N, big.NewInt(int64(1+i)))
+					case 3:
+						rr = new(big.Int).Sub(cv.N, big.NewInt(int64(1+i)))
+					case 4:
+						rr.Rsh(rr, uint(8*(1+i%3)))
+					}
+					if rr.Sign() == 0 || ss.Sign() == 0 {
+						continue
+					}
+					in := map[string]any{"curve": cv.Name, "alg": int64(alg), "r": rr.Text(16), "s": ss.Text(16)}
+					signer, err := cose.NewSigner(alg, &refcrypto.StubECDSASigner{Pub: pub, R: rr, S: ss})
+					if err != nil {
+						rec.Event("long-order-curve:NewSigner-refused")
+						continue
+					}
+					var out []byte
+					if guard(rec, "ecdsaCryptoSigner.Sign", in, func() { out, err = signer.Sign(gen.Entropy, []byte("content")) }) {
+						continue
+					}
+					rec.Eval(1)
+					rec.Event("long-order-curve-signatures")
+					rec.Class(fmt.Sprintf("%s/generic/alg=%d/r-lz%d/s-lz%d", cv.Name, int64(alg), lzClass(rr, n), lzClass(ss, n)))
+					if err != nil {
+						rec.Event("long-order-curve:Sign-error") // no signature is not a violation of the form rule
+						continue
+					}
+					want := append(rr.FillBytes(make([]byte, n)), ss.FillBytes(make([]byte, n))...)
+					if !eqBytes(out, want) {
+						rec.Violate("not-fixed-width", cv.Name+"/generic", fmt.Sprintf("signature is %d bytes: %s\nwant r||s on 2x%d bytes (octet length of the group order): %s", len(out), hexs(out), n, hexs(want)), in)
+					}
+				}
+			}
+		}
+	}
+
 	// ---------------- (a0) the exported conversion primitives ----------------
 	for i := 0; i < c.N(4000, 200000); i++ {
 		size := r.Intn(70)
@@ -382,6 +444,11 @@ func runC16(c *Ctx) {
 				"s-is-n":             refcrypto.EncodeRS(cv, sg.r, order),
 				"empty":              {},
 				"r-only":             good[:n],
+			}
+			// unused high bits of the leading octet (P-521: 7 of them): a set bit makes the value exceed the order
+			for bit := order.BitLen(); bit < 8*n; bit++ {
+				rejects[fmt.Sprintf("r-padding-bit-%d-set", bit)] = refcrypto.EncodeRS(cv, new(big.Int).SetBit(new(big.Int).Set(sg.r), bit, 1), sg.s)
+				rejects[fmt.Sprintf("s-padding-bit-%d-set", bit)] = refcrypto.EncodeRS(cv, sg.r, new(big.Int).SetBit(new(big.Int).Set(sg.s), bit, 1))
 			}
 			if rn := new(big.Int).Add(sg.r, order); rn.BitLen() <= 8*n {
 				rejects["r-plus-n"] = refcrypto.EncodeRS(cv, rn, sg.s)
